@@ -132,7 +132,9 @@ class Chain(BaseGridder):
                 if result is None:
                     result = [0 for i in range(len(predicted))]
                 for i, pred in enumerate(predicted):
-                    result[i] += pred
+                    # Not in-place: an integer first prediction can't hold
+                    # the sum with float predictions of later steps
+                    result[i] = result[i] + pred
         if len(result) == 1:
             return result[0]
         return tuple(result)
